@@ -187,6 +187,9 @@ type c12Core struct {
 	mu      sync.Mutex
 	applied uint64
 	chain   uint64
+	// slowEvery > 0: a batch containing a proposal id divisible by it takes a while, so
+	// async apply tasks pile up and the MaxApplyingTasks backpressure fallback is reached
+	slowEvery uint64
 }
 
 // c12SM is one process incarnation's handle on it
@@ -216,6 +219,14 @@ func (m *c12SM) Apply(ctx context.Context, cmd multiraft.Command) ([]byte, error
 }
 
 func (m *c12SM) ApplyBatch(ctx context.Context, cmds []multiraft.Command) ([][]byte, error) {
+	if m.slowEvery > 0 {
+		for _, c := range cmds {
+			if c12ID(c.Data)%m.slowEvery == 0 {
+				time.Sleep(12 * time.Millisecond)
+				break
+			}
+		}
+	}
 	m.chk()
 	if c12Hit(&m.node.killBeforeApply) {
 		m.node.die()
@@ -361,6 +372,9 @@ type c12Cluster struct {
 	cores  map[string]*c12Core
 	trace  *c12Trace
 	tick   time.Duration
+	// RaftOptions under test
+	maxApplying int
+	checkQuorum bool
 }
 
 var c12NodeIDs = []multiraft.NodeID{1, 2, 3}
@@ -378,7 +392,8 @@ func (c *c12Cluster) newRuntime(id multiraft.NodeID) *multiraft.Runtime {
 			ElectionTick:  10,
 			HeartbeatTick: 1,
 			PreVote:       true,
-			CheckQuorum:   true,
+			CheckQuorum:   c.checkQuorum,
+			MaxApplyingTasks: c.maxApplying,
 			LogCompaction: multiraft.LogCompactionConfig{Enabled: true, EnabledSet: true, TriggerEntries: 6, CheckInterval: time.Millisecond},
 		},
 	})
@@ -453,10 +468,22 @@ func c12Run(seed uint64, proposals int, profile string) string {
 		nodes:  map[multiraft.NodeID]*c12Node{},
 		inner:  map[string]multiraft.Storage{},
 		cores:  map[string]*c12Core{},
-		trace:  &c12Trace{},
-		tick:   4 * time.Millisecond,
+		trace:       &c12Trace{},
+		tick:        4 * time.Millisecond,
+		checkQuorum: true,
+	}
+	slowEvery := uint64(0)
+	switch profile {
+	case "backpressure": // tiny async-apply window + a slow state machine: processReadyAsyncNormal falls back to the synchronous path
+		c.net.drop, c.net.dup, c.net.maxMS = 0, 0, 1
+		c.maxApplying = 1 + int(seed%2)
+		slowEvery = 3
+	case "stalefuture": // directed: see c12StaleFuture
+		c.net.drop, c.net.dup, c.net.maxMS = 0, 0, 1
+		c.checkQuorum = false
 	}
 	switch profile {
+	case "backpressure", "stalefuture":
 	case "lossy":
 		c.net.drop, c.net.dup, c.net.maxMS = 8, 6, 6
 	case "calm":
@@ -471,7 +498,7 @@ func c12Run(seed uint64, proposals int, profile string) string {
 		for _, s := range c12Slots {
 			k := c12Key(id, s)
 			c.inner[k] = raftlog.NewMemory()
-			c.cores[k] = &c12Core{}
+			c.cores[k] = &c12Core{slowEvery: slowEvery}
 		}
 	}
 	for _, id := range c12NodeIDs {
@@ -492,9 +519,13 @@ func c12Run(seed uint64, proposals int, profile string) string {
 	var fwg sync.WaitGroup
 	nextID := uint64(seed%1000)*100000 + 1
 	deadline := time.Now().Add(40 * time.Second)
+	if profile == "stalefuture" {
+		c12StaleFuture(c, r, &nextID, &futs, &fmu, &fwg)
+		proposals = 0
+	}
 	for p := 0; p < proposals && time.Now().Before(deadline); p++ {
 		// fault injection between proposals (never more than one node down: a minority)
-		if profile != "calm" {
+		if profile != "calm" && profile != "backpressure" {
 			switch r.Pick(70, 6, 5, 5, 5, 4, 5) {
 			case 1: // crash at a driver point, then restart
 				id := c12NodeIDs[r.Intn(3)]
@@ -617,6 +648,114 @@ func c12Run(seed uint64, proposals int, profile string) string {
 	return strings.Join(ev, " ")
 }
 
+// c12ProposeOn proposes one fresh command on a given runtime and records its future
+func c12ProposeOn(rt *multiraft.Runtime, s multiraft.SlotID, nextID *uint64, futs *[]string, fmu *sync.Mutex, fwg *sync.WaitGroup, wait time.Duration) {
+	id := *nextID
+	*nextID++
+	data := make([]byte, 18)
+	binary.BigEndian.PutUint64(data[10:], id)
+	fut, err := rt.Propose(context.Background(), s, data)
+	if err != nil {
+		fmu.Lock()
+		*futs = append(*futs, fmt.Sprintf("F%d.%d:rejected", s, id))
+		fmu.Unlock()
+		return
+	}
+	fwg.Add(1)
+	go func() {
+		defer fwg.Done()
+		ctx, cancel := context.WithTimeout(context.Background(), wait)
+		defer cancel()
+		res, err := fut.Wait(ctx)
+		fmu.Lock()
+		defer fmu.Unlock()
+		switch {
+		case err == nil:
+			*futs = append(*futs, fmt.Sprintf("F%d.%d:ok@%d.%d=%s", s, id, res.Index, res.Term, string(res.Data)))
+		case errors.Is(err, context.DeadlineExceeded):
+			*futs = append(*futs, fmt.Sprintf("F%d.%d:timeout", s, id))
+		default:
+			*futs = append(*futs, fmt.Sprintf("F%d.%d:err", s, id))
+		}
+	}()
+}
+
+// c12StaleFuture — directed schedule for the term fence of proposal futures: the leader is cut
+// off (CheckQuorum off, so it keeps believing it leads), k >= 3 proposals are tracked on it at
+// (i.., t); the majority elects a new leader which commits MORE than k other commands on the same
+// indexes in term t+1; then the partition heals and the old leader receives, in one Ready, the
+// conflicting entries together with their commit.  Its old futures must fail; none may be resolved
+// with the result of the command that took its index.
+func c12StaleFuture(c *c12Cluster, r *Rand, nextID *uint64, futs *[]string, fmu *sync.Mutex, fwg *sync.WaitGroup) {
+	s := c12Slots[0]
+	wait := func(cond func() bool, d time.Duration) bool {
+		end := time.Now().Add(d)
+		for time.Now().Before(end) {
+			if cond() {
+				return true
+			}
+			time.Sleep(5 * time.Millisecond)
+		}
+		return false
+	}
+	var old multiraft.NodeID
+	var oldRT *multiraft.Runtime
+	if !wait(func() bool { old, oldRT = c.leader(s); return oldRT != nil }, 5*time.Second) {
+		return
+	}
+	for i := 0; i < 3; i++ { // some ordinary traffic first
+		c12ProposeOn(oldRT, s, nextID, futs, fmu, fwg, 3*time.Second)
+	}
+	time.Sleep(60 * time.Millisecond)
+	c.net.mu.Lock()
+	for _, o := range c12NodeIDs {
+		if o != old {
+			c.net.blocked[[2]multiraft.NodeID{old, o}] = true
+			c.net.blocked[[2]multiraft.NodeID{o, old}] = true
+		}
+	}
+	c.net.mu.Unlock()
+	k := r.Range(3, 5)
+	for i := 0; i < k; i++ { // tracked on the isolated leader, can never commit there
+		c12ProposeOn(oldRT, s, nextID, futs, fmu, fwg, 3500*time.Millisecond)
+	}
+	// the majority elects a new leader
+	var newRT *multiraft.Runtime
+	ok := wait(func() bool {
+		c.net.mu.Lock()
+		rts := map[multiraft.NodeID]*multiraft.Runtime{}
+		for id, rt := range c.net.rts {
+			rts[id] = rt
+		}
+		c.net.mu.Unlock()
+		for _, id := range c12NodeIDs {
+			if id == old {
+				continue
+			}
+			if st, err := rts[id].Status(s); err == nil && st.Role == multiraft.RoleLeader {
+				newRT = rts[id]
+				return true
+			}
+		}
+		return false
+	}, 5*time.Second)
+	if ok {
+		var mine []string
+		var mmu sync.Mutex
+		var mwg sync.WaitGroup
+		for i := 0; i < k+3; i++ {
+			c12ProposeOn(newRT, s, nextID, &mine, &mmu, &mwg, 3*time.Second)
+		}
+		mwg.Wait() // committed by the majority before the heal
+		fmu.Lock()
+		*futs = append(*futs, mine...)
+		fmu.Unlock()
+	}
+	c.net.mu.Lock()
+	c.net.blocked = map[[2]multiraft.NodeID]bool{}
+	c.net.mu.Unlock()
+}
+
 func c12Propose(c *c12Cluster, r *Rand, nextID *uint64, futs *[]string, fmu *sync.Mutex, fwg *sync.WaitGroup) {
 	s := c12Slots[r.Intn(len(c12Slots))]
 	id := *nextID
@@ -684,7 +823,14 @@ func (c12Runner) Step(op string) string {
 func genC12(g *Gen) {
 	for i := 0; i < g.N; i++ {
 		g.Case()
+		// the first two schedules of every run are the directed ones
 		profile := []string{"faulty", "faulty", "lossy", "calm"}[g.R.Pick(5, 3, 3, 1)]
+		switch i {
+		case 0:
+			profile = "stalefuture"
+		case 1:
+			profile = "backpressure"
+		}
 		g.Count("profile:" + profile)
 		n := g.R.Range(40, 90)
 		if g.Tier == "thorough" {
